@@ -295,9 +295,9 @@ namespace Dune
       {
         if(om->first!=m->first)
           return false;
-        if(om->second.first!=om->second.first)
+        if(om->second.first!=m->second.first)
           return false;
-        if(om->second.second!=om->second.second)
+        if(om->second.second!=m->second.second)
           return false;
       }
       return true;
